@@ -725,3 +725,61 @@ def r_classifkind(A, ctx, scope, rule="R-CLASSIFKIND"):
            what=f"the classifier tests disagree or one of them is gone: {[sorted(k) for k in tuples]} in {sites}",
            loc=None)
     ctx.floor(rule, n, 1)
+
+
+def r_row0(A, ctx, scope, rule="R-ROW0"):
+    ctx.rule(rule, "prediction-side methods of classifiers never derive anything from the first row "
+             "of a fitted per-class matrix alone (`self.coef_[0]`): with more than two classes each "
+             "row is the one-vs-rest model of its own class (support, sign pattern, scale differ "
+             "per row); the binary case has to be tested for explicitly")
+    prog = A.prog
+    em = prog.modules.get("skglm.estimators")
+    if em is None:
+        raise AnalysisError("skglm.estimators missing")
+    n = 0
+    for cls in em.classes.values():
+        for m in cls.methods.values():
+            if m.name in ("fit", "path", "__init__", "get_params", "set_params"):
+                continue
+            n += 1
+            cfg = cfg_of(m)
+            hits = []
+            for nd in cfg.stmts():
+                if nd.ast is None:
+                    continue
+                for sub in ast.walk(nd.ast):
+                    if isinstance(sub, ast.Subscript) and isinstance(sub.value, ast.Attribute) \
+                            and isinstance(sub.value.value, ast.Name) and sub.value.value.id == "self" \
+                            and sub.value.attr.endswith("_") and "coef" in sub.value.attr:
+                        first = sub.slice.elts[0] if isinstance(sub.slice, ast.Tuple) else sub.slice
+                        if isinstance(first, ast.Constant) and first.value == 0:
+                            guarded = any(isinstance(t, ast.expr) and any(
+                                k in ast.unparse(t) for k in ("classes_", "shape[0]", "ndim", "n_classes"))
+                                for t, lab, _ in cfg.facts_at(nd.id))
+                            if not guarded:
+                                hits.append(sub)
+            # a hand-written linear score carries the intercept
+            for st in ast.walk(m.node):
+                if not isinstance(st, (ast.Assign, ast.Return, ast.AugAssign)) or st.value is None:
+                    continue
+                prods = [x for x in ast.walk(st.value) if (
+                    (isinstance(x, ast.BinOp) and isinstance(x.op, ast.MatMult))
+                    or (isinstance(x, ast.Call) and ast.unparse(x.func).split(".")[-1] in ("safe_sparse_dot", "dot")))
+                    and "self.coef_" in ast.unparse(x)]
+                if prods:
+                    n += 1
+                    target = st.targets[0].id if isinstance(st, ast.Assign) and isinstance(st.targets[0], ast.Name) else None
+                    has_b = "self.intercept_" in ast.unparse(st.value)
+                    if not has_b and target:
+                        # added in a later statement to the same variable?
+                        has_b = any(isinstance(s2, (ast.AugAssign, ast.Assign)) and "self.intercept_" in ast.unparse(s2)
+                                    and target in names_in(s2) for s2 in ast.walk(m.node))
+                    ctx.ob(rule, f"{m.fq}::linear-score", has_b,
+                           what=f"{m.qualname} computes `{norm_src(st)[:70]}` from coef_ without intercept_: "
+                                "predictions are those of the model without its intercept", loc=loc(m, st))
+            ctx.ob(rule, f"{m.fq}", not hits,
+                   what=f"{m.qualname} uses `{norm_src(hits[0]) if hits else ''}` (first class only) without "
+                        "testing for the binary case: with more than two classes the other rows are "
+                        "treated with the first row's support / values and the decision values no longer "
+                        "are those of the per-class binary fits", loc=loc(m, hits[0]) if hits else None)
+    ctx.floor(rule, n, scope.get("floor", 2))
